@@ -17,7 +17,9 @@ Arguments nmem : simpl never.
 Definition py_site_plain (q : mquirks) (s : site) : bool :=
   (negb (q_py_upper_neg_flagged q) || negb (match s_ctx s with CUpperNeg => true | _ => false end))
   && (negb (q_py_upper_ann_flagged q) || negb (match s_ctx s with CUpperAnn => true | _ => false end))
-  && (negb (q_py_upper_tuple_flagged q) || negb (match s_ctx s with CUpperTuple => true | _ => false end)).
+  && (negb (q_py_upper_tuple_flagged q) || negb (match s_ctx s with CUpperTuple => true | _ => false end))
+  && (negb (q_py_enumerate_kw_flagged q) || negb (match s_ctx s with CEnumerateKw => true | _ => false end))
+  && (negb (q_py_upper_binop_flagged q) || negb (match s_ctx s with CUpperBinop => true | _ => false end)).
 
 Definition py_file_plain (q : mquirks) (f : file) : bool :=
   forallb (fun sc => forallb (py_site_plain q) (sc_sites sc)) (f_scopes f).
@@ -101,6 +103,8 @@ Section Lit.
     py_is_const_def q (p_anc s)
     || py_small_in py_range_value_types py_range_lo py_range_lo_cmp py_range_hi_cmp py_range_name cfg s
     || py_small_in py_enumerate_value_types py_enumerate_lo py_enumerate_lo_cmp py_enumerate_hi_cmp py_enumerate_name cfg s
+    || (negb (q_py_enumerate_kw_flagged q)
+        && py_small_kw py_enumerate_value_types py_enumerate_lo py_enumerate_lo_cmp py_enumerate_hi_cmp py_enumerate_name cfg s)
     || py_string_repetition s.
 
   Lemma py_site_report_eq t s :
@@ -116,10 +120,12 @@ Section Lit.
     (negb (q_py_upper_neg_flagged q) || negb (match c with CUpperNeg => true | _ => false end)) = true ->
     (negb (q_py_upper_ann_flagged q) || negb (match c with CUpperAnn => true | _ => false end)) = true ->
     (negb (q_py_upper_tuple_flagged q) || negb (match c with CUpperTuple => true | _ => false end)) = true ->
+    (negb (q_py_enumerate_kw_flagged q) || negb (match c with CEnumerateKw => true | _ => false end)) = true ->
+    (negb (q_py_upper_binop_flagged q) || negb (match c with CUpperBinop => true | _ => false end)) = true ->
     py_exempt (mk_pysite v (py_ctx_chain c name l ++ py_scope_chain k) line)
     = ctx_is_const_def c || spec_usage_exempt cfg c l (lit_int_value l).
   Proof.
-    intros Hc Hn Hnum Hv G1 G2 G3. unfold py_exempt, py_small_in, py_string_repetition, name_ok in *.
+    intros Hc Hn Hnum Hv G1 G2 G3 G4 G5. unfold py_exempt, py_small_in, py_small_kw, py_string_repetition, name_ok in *.
     rewrite max_small_spec.
     replace py_range_name with "range" by reflexivity. replace py_enumerate_name with "enumerate" by reflexivity.
     replace py_range_lo with 0%Z by reflexivity. replace py_enumerate_lo with 0%Z by reflexivity.
@@ -132,7 +138,7 @@ Section Lit.
       destruct c; cbn [ctx_is_const_def] in Hn; try (cbn in Hc; discriminate);
       try (apply andb_prop in Hn; destruct Hn as [Hn Hne]; apply andb_prop in Hn; destruct Hn as [Hn Hnr];
            apply negb_true_iff in Hne; apply negb_true_iff in Hnr; apply negb_true_iff in Hn);
-      cbn [py_ctx_chain app py_is_const_def parent_is_call lit_is_str spec_usage_exempt lit_is_int lit_int_value ctx_is_const_def
+      cbn [py_ctx_chain app py_is_const_def parent_is_call kw_parent_is_call lit_is_str spec_usage_exempt lit_is_int lit_int_value ctx_is_const_def
            val_isinstance val_types existsb smem val_int cmp_z upper_target negb andb orb];
       cbn;
       rewrite ?py_const_spec; try rewrite Hn;
@@ -140,6 +146,8 @@ Section Lit.
       try (destruct (q_py_upper_neg_flagged q); [discriminate G1|]);
       try (destruct (q_py_upper_ann_flagged q); [discriminate G2|]);
       try (destruct (q_py_upper_tuple_flagged q); [discriminate G3|]);
+      try (destruct (q_py_enumerate_kw_flagged q); [discriminate G4|]);
+      try (destruct (q_py_upper_binop_flagged q); [discriminate G5|]);
       cbn; try reflexivity;
       rewrite ?andb_false_r, ?andb_true_r, ?orb_false_r, ?orb_true_r; cbn [orb andb]; rewrite ?orb_false_r; try reflexivity.
   Qed.
@@ -169,9 +177,11 @@ Lemma py_site_plain_parts q s :
   py_site_plain q s = true ->
   (negb (q_py_upper_neg_flagged q) || negb (match s_ctx s with CUpperNeg => true | _ => false end)) = true
   /\ (negb (q_py_upper_ann_flagged q) || negb (match s_ctx s with CUpperAnn => true | _ => false end)) = true
-  /\ (negb (q_py_upper_tuple_flagged q) || negb (match s_ctx s with CUpperTuple => true | _ => false end)) = true.
+  /\ (negb (q_py_upper_tuple_flagged q) || negb (match s_ctx s with CUpperTuple => true | _ => false end)) = true
+  /\ (negb (q_py_enumerate_kw_flagged q) || negb (match s_ctx s with CEnumerateKw => true | _ => false end)) = true
+  /\ (negb (q_py_upper_binop_flagged q) || negb (match s_ctx s with CUpperBinop => true | _ => false end)) = true.
 Proof.
-  unfold py_site_plain. intros H. apply andb_prop in H. destruct H as [H H3].
+  unfold py_site_plain. intros H. apply andb_prop in H. destruct H as [H H5]. apply andb_prop in H. destruct H as [H H4]. apply andb_prop in H. destruct H as [H H3].
   apply andb_prop in H. destruct H as [H1 H2]. repeat split; assumption.
 Qed.
 
@@ -180,7 +190,7 @@ Lemma py_lit_exact q cfg sc s l (t : bool) :
   flat_map (py_site_report q cfg t) (to_py_lit (sc_kind sc) s l) = spec_lit MPy cfg t sc s l.
 Proof.
   intros Hg Hp Hin. destruct (site_good_parts _ _ _ Hg) as [Hctx [Hnm [_ _]]].
-  destruct (py_site_plain_parts q s Hp) as [G1 [G2 G3]].
+  destruct (py_site_plain_parts q s Hp) as [G1 [G2 [G3 [G4 G5]]]].
   destruct (excl_fact (q_py_bool_is_number q)) as [EX _].
   unfold to_py_lit, spec_lit.
   destruct (lit_is_numeric l) eqn:Hnum.
@@ -189,7 +199,7 @@ Proof.
     { destruct l; try discriminate; cbn [py_const lit_value lit_raw option_map]; eexists; (split; [reflexivity|]); (split; [reflexivity|]); split; reflexivity. }
     destruct Hv as [v [Ev [Hi [Hval Hrv]]]]. rewrite Ev. cbn [flat_map]. rewrite app_nil_r.
     rewrite py_site_report_eq. cbn [p_val p_line]. rewrite EX, Hi. cbn [negb]. rewrite Hval, Hrv, allowed_spec.
-    rewrite (py_ctx_exempt q cfg _ _ _ _ _ _ Hctx Hnm Hnum Ev G1 G2 G3).
+    rewrite (py_ctx_exempt q cfg _ _ _ _ _ _ Hctx Hnm Hnum Ev G1 G2 G3 G4 G5).
     unfold spec_site_exempt. cbn [orb]. reflexivity.
   - rewrite (lit_value_numeric l Hnum).
     destruct l as [ | | b | st | st]; try discriminate; cbn [py_const flat_map]; try reflexivity;
@@ -339,14 +349,15 @@ Qed.
 
 Lemma py_plain_ideal q f :
   q_py_upper_neg_flagged q = false -> q_py_upper_ann_flagged q = false ->
-  q_py_upper_tuple_flagged q = false -> py_file_plain q f = true.
+  q_py_upper_tuple_flagged q = false -> q_py_enumerate_kw_flagged q = false -> q_py_upper_binop_flagged q = false -> py_file_plain q f = true.
 Proof.
-  intros H2 H3 H4. unfold py_file_plain. rewrite forallb_forall. intros sc _. rewrite forallb_forall. intros s _.
-  unfold py_site_plain. rewrite H2, H3, H4. reflexivity.
+  intros H2 H3 H4 H5 H6. unfold py_file_plain. rewrite forallb_forall. intros sc _. rewrite forallb_forall. intros s _.
+  unfold py_site_plain. rewrite H2, H3, H4, H5, H6. reflexivity.
 Qed.
 
 (* whether bool is excluded because the source says so (flag on) or because the property says so (flag off) *)
 Theorem py_report_exact q cfg f :
   q_py_upper_neg_flagged q = false -> q_py_upper_ann_flagged q = false ->
-  q_py_upper_tuple_flagged q = false -> file_good MPy f = true -> py_report q cfg f = spec_report MPy cfg f.
-Proof. intros H2 H3 H4 Hg. apply py_report_guarded; [exact Hg | apply py_plain_ideal; assumption]. Qed.
+  q_py_upper_tuple_flagged q = false -> q_py_enumerate_kw_flagged q = false -> q_py_upper_binop_flagged q = false ->
+  file_good MPy f = true -> py_report q cfg f = spec_report MPy cfg f.
+Proof. intros H2 H3 H4 H5 H6 Hg. apply py_report_guarded; [exact Hg | apply py_plain_ideal; assumption]. Qed.
